@@ -247,6 +247,37 @@ def run_case(res, case):
             if not close(t_aux, expt):
                 return viol("wrong_value", "jvp through the aux output of grad_and_aux deviates", "grad_and_aux:nested")
             ops_checked.append("nested_primal_aux")
+            # mixed derivative: an operator result taken at a CONSTANT point, differentiated by an enclosing
+            # operator w.r.t. another parameter the function closes over (here `a`): d/da J_x f(a, x0, b)
+            for pname, p0_, Jx in (("a", a0, lambda aa: jacobian(lambda xx: f_ag(aa, xx, b0, scale=scale))(x0)), ("scale", scale, lambda ss: jacobian(lambda xx: f_ag(a0, xx, b0, scale=ss))(x0))):
+                if m * n > 64:
+                    break
+                a0_ = p0_
+                fdm = fd_directional(lambda av: common.realify(onp.asarray(Jx(float(av[0])), dtype=float)), onp.array([a0_]), onp.array([1.0]))
+                if fdm.ok:
+                    dJ = fdm.val.reshape(out_shape + in_shape)
+                    tolm = 1e-6 * (1.0 + float(onp.max(onp.abs(dJ))))
+                    for label, thunk in (
+                        ("jacobian_of_jacobian:closure", lambda: jacobian(Jx)(a0_)),
+                        ("deriv_of_jacobian:closure", lambda: deriv(Jx)(a0_)),
+                        ("grad_of_weighted_jacobian:closure", lambda: grad(lambda aa: anp.sum(Jx(aa) * dJ))(a0_) / max(float(onp.sum(dJ * dJ)), 1e-300) * dJ),
+                        ("jacobian_of_elementwise_grad:closure", None),
+                    ):
+                        if thunk is None:
+                            continue
+                        r = thunk()
+                        if onp.shape(r) != onp.shape(dJ) or not close(r, dJ, tolm):
+                            # the weighted form reproduces dJ only up to the projection on dJ itself
+                            if label.startswith("grad_of_weighted"):
+                                pr = float(grad(lambda aa: anp.sum(Jx(aa) * dJ))(a0_))
+                                if abs(pr - float(onp.sum(dJ * dJ))) <= 1e-6 * (1.0 + float(onp.sum(dJ * dJ))):
+                                    continue
+                            return viol("wrong_value", "%s (parameter %s) deviates from the FD derivative of the Jacobian w.r.t. the closed-over parameter: %s vs %s" % (label, pname, common.brief(onp.asarray(r)), common.brief(dJ)), label + ":" + pname)
+                    g_in = grad(lambda pp: anp.sum(grad(lambda xx: L_ag(pp if pname == "a" else a0, xx, b0, scale=(pp if pname == "scale" else scale)))(x0) * v))(a0_)
+                    exp_in = float(onp.sum(onp.tensordot(w, dJ, axes=len(out_shape)) * onp.asarray(v)))
+                    if abs(float(g_in) - exp_in) > 1e-6 * (1.0 + abs(exp_in)) + tolm * float(onp.sum(onp.abs(w))) * float(onp.sum(onp.abs(onp.asarray(v)))):
+                        return viol("wrong_value", "grad over a closed-over parameter of an inner grad taken at a constant point: %r vs %r" % (g_in, exp_in), "grad_of_grad:closure")
+                    ops_checked.append("mixed_closure_parameter")
             # --- second order: reference H = FD Jacobian of autograd's gradient (C01-judged), symmetric
             Gf = lambda vv_: common.realify(grad(Lx)(common.unrealify(vv_, x0)))
             H = onp.zeros((n, n))
@@ -346,6 +377,34 @@ def holomorphic_cases(res, rng):
             if abs(complex(g) - complex(df(z))) > 1e-10:
                 s = dict(sig, symptom="wrong_value")
                 res["violations"].append({"sig": s, "case": {"kind": "holo", "f": name}, "detail": "%r vs %r" % (g, df(z))})
+                continue
+            # the other operators on complex arguments: J v = f'(z) v for a holomorphic f, in both modes and through
+            # the reverse-over-reverse construction; J^T g follows the documented convention g f'(z)
+            from autograd.differential_operators import make_jvp, make_jvp_reversemode, make_vjp
+
+            bad = None
+            for v in (0.6 - 0.8j, 1.0 + 0.0j, 0.3j):
+                vv = type(z)(v) if not isinstance(z, onp.ndarray) else onp.array(v)
+                exp_t = complex(df(z)) * complex(v)
+                try:
+                    with warnings.catch_warnings():
+                        warnings.simplefilter("ignore")
+                        t_f = make_jvp(f)(z)(vv)[1]
+                        t_r = make_jvp_reversemode(f)(z)(vv)
+                        r_v = make_vjp(f)(z)[0](vv)
+                except Exception as e:
+                    bad = ("exception:" + type(e).__name__, traceback.format_exc()[-300:])
+                    break
+                if abs(complex(t_f) - exp_t) > 1e-10:
+                    bad = ("wrong_value", "make_jvp on a complex argument: %r vs %r" % (t_f, exp_t))
+                elif abs(complex(t_r) - exp_t) > 1e-10:
+                    bad = ("wrong_value", "make_jvp_reversemode on a complex argument: %r vs %r" % (t_r, exp_t))
+                elif abs(complex(r_v) - complex(v) * complex(df(z))) > 1e-10:
+                    bad = ("wrong_value", "make_vjp on a complex argument: %r vs %r" % (r_v, complex(v) * complex(df(z))))
+                if bad:
+                    break
+            if bad:
+                res["violations"].append({"sig": dict(sig, symptom=bad[0], op="complex_operators"), "case": {"kind": "holo", "f": name}, "detail": bad[1]})
                 continue
             k = sig_key(sig)
             res["judged"][k] = res["judged"].get(k, 0) + 1
